@@ -726,6 +726,21 @@ def special_C16(tier, seed, harness, work):
     return {"coverage": cov, "violations": viol}
 
 
+def special_C15(tier, seed, harness, work):
+    """the fixed scenarios of the generic arm keep a generic.Resource mapper across World.Reset and a replacement of the
+    resource through other entry points: after Reset a mapper must see what a fresh world would hold"""
+    r = special_C20(tier, seed, harness, work)
+    viol = []
+    for rp, tag in r.get("violations", []):
+        np = rp.replace("C20-", "C15-")
+        try:
+            open(np, "w").write(open(rp).read().replace("# C20:", "# C15 (a generic.Resource mapper kept across Reset / replacement sees a stale value):"))
+        except Exception:
+            np = rp
+        viol.append((np, tag))
+    return {"coverage": r.get("coverage", {}), "violations": viol}
+
+
 def special_C20(tier, seed, harness, work):
     """generic.Resource / ecs.AddResource / GetResource against the ID-based resource calls (fixed scenarios of the generic arm)"""
     cov = {}
